@@ -113,6 +113,15 @@ CHECKS = {
             "included usage map and the recorded position marks are compared.",
             "Several positions are accepted where the property says 'statement or header' (DESIGN.md 7); silent ops only need to point at some statement start.",
             "DESIGN.md 3/C08"),
+    "C15": ("exploration",
+            "runtime monitoring: both CLIs run as real subprocesses; recorded stdout / stderr / exit status checked offline against a JSON Schema transcribed from the docs, the API compilation and the reference semantics",
+            "Generated programs (many with dropped ops, i.e. offset gaps; macro layouts with --lookup) are compiled by the compile "
+            "command; its stdout must validate against the documented structure, every jump parameter must be the 1-based position "
+            "of its target, and the decompile command must accept it and print a program behaving like the source. Documents written "
+            "from the docs (all routine and argument types, numeric and string coordinates) must be accepted; invalid sources and "
+            "malformed documents must exit non-zero without output.",
+            "Trusts my transcription of docs/cli_api_usage.rst into a JSON Schema; behaviour comparison only for the structured class.",
+            "DESIGN.md 3/C15"),
 }
 
 NOT_YET = {
